@@ -82,6 +82,13 @@ theorem updCov_toMatrix {m n : Nat} (H : QMat m n) (P : QMat n n) (Si : QMat m m
       P.toMatrix - P.toMatrix * H.toMatrixᵀ * Si.toMatrix * H.toMatrix * P.toMatrix := by
   simp [updCov, gain, Matrix.mul_assoc]
 
+theorem updCovJoseph_toMatrix {m n : Nat} (H : QMat m n) (P : QMat n n) (Q Si : QMat m m) :
+    (updCovJoseph H P Q Si).toMatrix =
+      (1 - (P.toMatrix * H.toMatrixᵀ * Si.toMatrix) * H.toMatrix) * P.toMatrix *
+        (1 - (P.toMatrix * H.toMatrixᵀ * Si.toMatrix) * H.toMatrix)ᵀ +
+      (P.toMatrix * H.toMatrixᵀ * Si.toMatrix) * Q.toMatrix * (P.toMatrix * H.toMatrixᵀ * Si.toMatrix)ᵀ := by
+  simp [updCovJoseph, gain, Matrix.mul_assoc]
+
 theorem nis_eq {m : Nat} (y : Fin m → ℚ) (Si : QMat m m) : nis y Si = y ⬝ᵥ Si.toMatrix.mulVec y := by
   simp [nis, QMat.sumFin_eq, dotProduct, QMat.mulVec_eq]
 
